@@ -486,11 +486,12 @@ func c17_2(c *core.Ctx, p *core.Prog) {
 }
 
 type obfAnchors struct {
-	typ        *types.Named
-	cipherF    *types.Var
-	encHelpers []*ssa.Function // methods calling Encrypt
-	entries    []*ssa.Function // process{Traces,Logs,Metrics}
-	errs       []string
+	typ         *types.Named
+	cipherF     *types.Var
+	encHelpers  []*ssa.Function // functions calling Encrypt
+	encWrappers []*ssa.Function // functions that only return a helper's result for their own argument
+	entries     []*ssa.Function // process{Traces,Logs,Metrics}
+	errs        []string
 }
 
 func newObfAnchors(p *core.Prog) *obfAnchors {
@@ -520,8 +521,10 @@ func newObfAnchors(p *core.Prog) *obfAnchors {
 		a.errs = append(a.errs, "no struct with a feistel cipher field")
 		return a
 	}
-	for _, fn := range p.FuncsIn(func(pp string) bool { return pp == core.ObfPath }) {
-		if fn.Signature.Recv() == nil || core.NamedOf(fn.Signature.Recv().Type()) == nil || core.NamedOf(fn.Signature.Recv().Type()).Obj() != a.typ.Obj() {
+	all := p.FuncsIn(func(pp string) bool { return pp == core.ObfPath })
+	// the helpers that apply the cipher: methods of the instance, or package functions that are handed the cipher
+	for _, fn := range all {
+		if fn.Synthetic != "" || fn.Parent() != nil {
 			continue
 		}
 		callsEnc := false
@@ -532,6 +535,49 @@ func newObfAnchors(p *core.Prog) *obfAnchors {
 		})
 		if callsEnc {
 			a.encHelpers = append(a.encHelpers, fn)
+		}
+	}
+	// wrappers: methods of the instance whose every return is the result of one helper applied to their own last parameter
+	for _, fn := range all {
+		if fn.Synthetic != "" || fn.Parent() != nil || len(fn.Params) == 0 || fn.Signature.Results().Len() != 1 {
+			continue
+		}
+		isHelper := false
+		for _, h := range a.encHelpers {
+			if h == fn {
+				isHelper = true
+			}
+		}
+		if isHelper {
+			continue
+		}
+		rets := core.Returns(fn)
+		wraps := len(rets) > 0
+		for _, r := range rets {
+			cl, ok := r.Results[0].(*ssa.Call)
+			if !ok {
+				wraps = false
+				break
+			}
+			callee := cl.Call.StaticCallee()
+			isH := false
+			for _, h := range a.encHelpers {
+				if callee == h {
+					isH = true
+				}
+			}
+			if !isH || len(cl.Call.Args) == 0 || cl.Call.Args[len(cl.Call.Args)-1] != ssa.Value(fn.Params[len(fn.Params)-1]) {
+				wraps = false
+				break
+			}
+		}
+		if wraps {
+			a.encWrappers = append(a.encWrappers, fn)
+		}
+	}
+	for _, fn := range all {
+		if fn.Signature.Recv() == nil || core.NamedOf(fn.Signature.Recv().Type()) == nil || core.NamedOf(fn.Signature.Recv().Type()).Obj() != a.typ.Obj() {
+			continue
 		}
 		sig := fn.Signature
 		if sig.Params().Len() == 2 && sig.Results().Len() == 2 && isCtx(sig.Params().At(0).Type()) && isPdataType(sig.Params().At(1).Type()) && types.Identical(sig.Params().At(1).Type(), sig.Results().At(0).Type()) {
@@ -561,6 +607,11 @@ func (a *obfAnchors) isEncCall(v ssa.Value) (*ssa.Call, bool) {
 		return nil, false
 	}
 	for _, h := range a.encHelpers {
+		if cl.Call.StaticCallee() == h {
+			return cl, true
+		}
+	}
+	for _, h := range a.encWrappers {
 		if cl.Call.StaticCallee() == h {
 			return cl, true
 		}
@@ -1015,10 +1066,39 @@ func c17_6(c *core.Ctx, p *core.Prog) {
 			msgs = append(msgs, "Encrypt is not applied to the helper's own argument")
 		}
 		if encCall != nil {
-			if !core.DerivesFrom(encCall.Call.Args[0], func(v ssa.Value) bool {
+			isCipher := func(v ssa.Value) bool {
 				fa, ok := v.(*ssa.FieldAddr)
 				return ok && core.FieldVar(fa) == a.cipherF
-			}) {
+			}
+			onInstance := core.DerivesFrom(encCall.Call.Args[0], isCipher)
+			recv := core.Canon(encCall.Call.Args[0])
+			if u, ok := recv.(*ssa.UnOp); ok && u.Op == token.MUL {
+				recv = core.Canon(u.X) // a value receiver: the cipher is loaded through the pointer parameter
+			}
+			if par, isP := recv.(*ssa.Parameter); !onInstance && isP {
+				// a package function that is handed the cipher: every call site passes the instance's
+				idx, sites := -1, 0
+				for k, q := range h.Params {
+					if q == par {
+						idx = k
+					}
+				}
+				onInstance = idx >= 0
+				for _, g := range obfFuncs(c, p) {
+					core.EachInstr(g, func(i ssa.Instruction) {
+						if cl, ok := i.(*ssa.Call); ok && cl.Call.StaticCallee() == h && idx >= 0 {
+							sites++
+							if !core.DerivesFrom(cl.Call.Args[idx], isCipher) {
+								onInstance = false
+							}
+						}
+					})
+				}
+				if sites == 0 {
+					onInstance = false
+				}
+			}
+			if !onInstance {
 				msgs = append(msgs, "Encrypt is not called on the instance's cipher")
 			}
 		}
